@@ -35,6 +35,8 @@ func runC07(w *World, r *Report) {
 	checkCarried(w, r, "C07/WIRING", []string{"TakeOwnership"})
 	c07CheckFirst(w, r, ef)
 	c07CheckContent(w, r)
+	c07IdentityKey(w, r)
+	c07PatchNeedsOriginal(w, r)
 	c07Stamped(w, r, ef)
 	c07DeleteProv(w, r, ef)
 }
@@ -395,6 +397,28 @@ func c07Stamped(w *World, r *Report, ef *Effects) {
 						okArgs = fieldLoadOfValue(c.Common().Args[1], "Namespace", relv)
 					}
 				}
+				// the list stamped is the one built from that same record's manifest (not the other revision's)
+				okList := false
+				if !visit.Common().IsInvoke() && len(visit.Common().Args) > 0 && relv != nil {
+					same, other := false, false
+					backSlice(visit.Common().Args[0], func(v ssa.Value) bool {
+						if ld, ok := v.(*ssa.UnOp); ok && ld.Op == token.MUL {
+							if fa, ok := ld.X.(*ssa.FieldAddr); ok && isFieldOf(fa, relPkg, "Release", "Manifest") {
+								if sameValue(fa.X, relv) {
+									same = true
+								} else {
+									other = true
+								}
+								return true
+							}
+						}
+						return false
+					})
+					okList = same && !other
+				}
+				if !okList {
+					okArgs = false
+				}
 				// cluster writes in fn on release resources follow the stamping's ok edge
 				okOrder := true
 				bad := ""
@@ -516,4 +540,122 @@ func deleteArgProvenance(w *World, fn *ssa.Function, v ssa.Value, depth int) (bo
 		return true, "an empty list literal"
 	}
 	return okAll, strings.Join(list, " | ")
+}
+
+// c07IdentityKey: a string key computed for a resource (used to decide whether a target resource is
+// "already part of the release") identifies the object: kind/version, namespace and name all enter it.
+func c07IdentityKey(w *World, r *Report) {
+	r.Rule("C07/IDENTITY-KEY", "a string key computed from a *resource.Info to compare resources of two manifests is built from the object's group/version/kind, its namespace and its name", 1)
+	n := 0
+	for _, rel := range []string{"pkg/action", "pkg/kube"} {
+		for _, fn := range w.FuncsIn(rel) {
+			if fn.Parent() != nil || len(fn.Params) != 1 || fn.Signature.Results().Len() != 1 {
+				continue
+			}
+			if !isNamedPtr(fn.Params[0].Type(), "k8s.io/cli-runtime/pkg/resource", "Info") || !isStringType(fn.Signature.Results().At(0).Type()) {
+				continue
+			}
+			n++
+			r.Fn(FuncName(fn))
+			reads := map[string]bool{}
+			for _, b := range fn.Blocks {
+				for _, in := range b.Instrs {
+					switch x := in.(type) {
+					case *ssa.FieldAddr:
+						if x.X == ssa.Value(fn.Params[0]) {
+							_, _, f := fieldNameOf(x)
+							reads[f] = true
+						}
+					case ssa.CallInstruction:
+						if x.Common().IsInvoke() && x.Common().Method.Name() == "GroupVersionKind" {
+							reads["gvk"] = true
+						}
+						if f, _ := calleeOf(x.Common()); f != nil && f.Name() == "GroupVersionKind" {
+							reads["gvk"] = true
+						}
+					}
+				}
+			}
+			// Mapping.GroupVersionKind field
+			for _, b := range fn.Blocks {
+				for _, in := range b.Instrs {
+					if fa, ok := in.(*ssa.FieldAddr); ok {
+						if _, _, f := fieldNameOf(fa); f == "GroupVersionKind" {
+							reads["gvk"] = true
+						}
+					}
+				}
+			}
+			missing := ""
+			for _, k := range []string{"Name", "Namespace", "gvk"} {
+				if !reads[k] {
+					missing += k + " "
+				}
+			}
+			r.Check(missing == "", "C07/IDENTITY-KEY", FuncName(fn), w.Pos(fn.Pos()), "the key contains kind, namespace and name", "the key omits "+missing+": two different objects (e.g. the same name in another namespace) are taken for the same resource, so the ownership pre-flight is skipped for one of them")
+		}
+	}
+	if n == 0 {
+		r.OKTrivial("C07/IDENTITY-KEY", "none", "-", "no string key is computed from a resource")
+	}
+}
+
+// c07PatchNeedsOriginal: the update visitor patches a live object only when the same object is part of
+// the previous manifest; an object that exists in the cluster but is not in the previous manifest is
+// refused (second line of defence behind the pre-flight).
+func c07PatchNeedsOriginal(w *World, r *Report) {
+	r.Rule("C07/PATCH-NEEDS-ORIGINAL", "in the update visitor an existing live object is patched only on the edge where the previous manifest contains it (original.Get(info) != nil); otherwise the visitor returns an error", 1)
+	up := w.Fn("pkg/kube", "Client.update")
+	if up == nil {
+		r.Unk("C07/PATCH-NEEDS-ORIGINAL", "anchor", "-", "kube.Client.update not found")
+		return
+	}
+	n := 0
+	for _, fn := range withAnon(up) {
+		if fn == up {
+			continue
+		}
+		g := FullGraph(fn)
+		var lookups []ssa.CallInstruction
+		var patches []ssa.CallInstruction
+		for _, c := range callInstrs(fn) {
+			f, _ := calleeOf(c.Common())
+			if f == nil {
+				continue
+			}
+			switch FuncName(f) {
+			case "(pkg/kube.ResourceList).Get":
+				lookups = append(lookups, c)
+			case "pkg/kube.updateResource":
+				patches = append(patches, c)
+			}
+		}
+		for _, p := range patches {
+			n++
+			r.Fn(FuncName(fn))
+			var nonNil []Edge
+			for _, l := range lookups {
+				_, bad := nilTestEdges(l.Value())
+				nonNil = append(nonNil, bad...)
+			}
+			ok := false
+			if len(nonNil) > 0 {
+				ex, _ := g.PathExists(entryPos(fn), posOf(p), Avoid{}.withEdges(nonNil...))
+				ok = !ex
+			}
+			// and the base handed to the patch is that previous object
+			base := false
+			for _, l := range lookups {
+				for _, a := range p.Common().Args {
+					if derivesFromValue(a, l.Value()) {
+						base = true
+					}
+				}
+			}
+			r.Check(ok && base, "C07/PATCH-NEEDS-ORIGINAL", "update/patch", w.InstrPos(p), "the patch is reached only where the previous manifest contains the object, and is based on it", "a live object that is not in the previous manifest can be patched (taken over) — or the patch base is not the previous manifest's object")
+		}
+	}
+	if n == 0 {
+		r.Bad("C07/PATCH-NEEDS-ORIGINAL", "update/patch", w.Pos(up.Pos()), "the update visitor no longer patches through updateResource")
+	}
 }
